@@ -437,7 +437,10 @@ class C09(Base):
                     pool.by_kind[e['kind']].append(h)
                     if e['td'] is not None:
                         pool.td[h] = e['td']
-            suffix = heapgen.gen_suffix(rng, pool, docs or ['d0', 'd1'], nops=rng.choice([0, 6, 15])) if snap else []
+            # reassignIds of either side is part of the suffix: with both documents present, a renumbering that reached into
+            # the other document shows as a difference between libadm and the model (theorem C09_reassignIds_is_local)
+            suffix = heapgen.gen_suffix(rng, pool, docs or ['d0', 'd1'], nops=rng.choice([0, 6, 15]),
+                                        weights=dict(reassign=6)) if snap else []
             cases.append(lines + suffix + ['end'])
         return cases
 
